@@ -18,6 +18,7 @@ Print Assumptions C07_fragmentation.
 (* the single-chunk reader is one such delivery *)
 Theorem C07_one_chunk : forall bs, sbytes (one bs) = bs ++ [] /\ avail (len bs) (one bs) = true.
 Proof. exact one_delivers. Qed.
+Print Assumptions C07_one_chunk.
 
 Example C07_example :
   let f := [x40; x02; x00; x07] in
